@@ -27,7 +27,9 @@ from phyclone.tree import Tree, FSCRPDistribution, TreeJointDistribution
 ID = "C13"
 LEVEL = "other"
 THEOREMS = ["conc_params", "conc_params_zero", "mixture_density_identity", "eta_conditional", "alpha_conditional", "eta_marginal",
-            "kn_from_tree", "value_in_force", "value_in_force_off", "conc_gibbs_partial"]
+            "kn_from_tree", "value_in_force", "value_in_force_off", "conc_gibbs_partial",
+            "eta_marginal_lintegral", "eta_conditional_density", "alpha_conditional_density",
+            "conc_gibbs", "conc_gibbs_measure", "conc_gibbs_set", "mixtureMeasure_prob", "posterior_finite_pos"]
 BUDGET = {"quick": 60, "thorough": 420}
 EXPLANATION = (
     "Partial proof.  Proved in Lean (kernel-checked, over the reals with Mathlib's gammaPDFReal / betaPDFReal): the model's "
